@@ -160,7 +160,7 @@ func (t *TC) onWrite(m Msg) error {
 		rep, ok = t.Script(kind, m)
 	}
 	if !ok {
-		rep = t.model(kind, m)
+		rep = t.Model(kind, m)
 	}
 	if rep.NetErr != nil {
 		t.record(Record{Seq: m.Seq, Dir: "in", Kind: kind, ID: m.Rpc.ID, Session: m.Session.Name, Body: m.Rpc.Body, Note: "neterr"})
@@ -222,8 +222,8 @@ func LockKeys(lockKey string) []string {
 	return out
 }
 
-// model is the default behaviour of a healthy coordinator.
-func (t *TC) model(kind string, m Msg) Reply {
+// Model is the default behaviour of a healthy coordinator.
+func (t *TC) Model(kind string, m Msg) Reply {
 	switch req := m.Rpc.Body.(type) {
 	case message.GlobalBeginRequest:
 		t.mu.Lock()
@@ -324,10 +324,28 @@ func (t *TC) Request(s *Session, id int32, body interface{}, timeout time.Durati
 		t.mu.Unlock()
 	}()
 	t.record(Record{Seq: NextSeq(), Dir: "out", Kind: Kind(body), ID: id, Session: s.Name, Body: body})
-	go s.Deliver(message.RpcMessage{ID: id, Type: message.GettyRequestTypeRequestSync, Codec: 1, Body: body})
+	done := make(chan struct{})
+	go func() {
+		defer close(done)
+		defer func() {
+			if p := recover(); p != nil {
+				t.record(Record{Seq: NextSeq(), Dir: "in", Kind: "PANIC", ID: id, Session: s.Name, Note: fmt.Sprint(p)})
+			}
+		}()
+		s.Deliver(message.RpcMessage{ID: id, Type: message.GettyRequestTypeRequestSync, Codec: 1, Body: body})
+	}()
 	select {
 	case r := <-ch:
 		return r, true
+	case <-done:
+		// the client's dispatch is synchronous: once it has returned, a response has either been
+		// written already or will never be
+		select {
+		case r := <-ch:
+			return r, true
+		default:
+			return message.RpcMessage{}, false
+		}
 	case <-time.After(timeout):
 		return message.RpcMessage{}, false
 	}
